@@ -8,10 +8,10 @@ import (
 
 // Goroutine is one parsed entry of a full goroutine dump.
 type Goroutine struct {
-	ID     string
-	State  string // e.g. "chan receive", "sync.Mutex.Lock", "running"
-	Bubble string // synctest bubble number, "" if none
-	Stack  string
+	ID      string
+	State   string // e.g. "chan receive", "sync.Mutex.Lock", "running"
+	Bubble  string // synctest bubble number, "" if none
+	Stack   string
 	Durable bool
 }
 
